@@ -251,6 +251,60 @@ var recOddLeaves = []reflect.Type{
 // /repo 25154ae each of them killed the child process (C06rec-self-embedding, fixed).
 var recSelfEmb = []reflect.Type{reflect.TypeOf(pc.SelfEmb{}), reflect.TypeOf(pc.EmbA{}), reflect.TypeOf(pc.EmbB{})}
 
+// recSelfCont: named container types that contain themselves, and struct types with fields of them.
+// Until /repo 041b92d registering one of the struct types never returned
+// (C06-recompose-selfcontaining-container, fixed): the unwrap loop of registerComposer followed
+// Elem() for ever.
+var recSelfContBare = []reflect.Type{
+	reflect.TypeOf(pc.Tree{}), reflect.TypeOf(pc.SelfL{}), reflect.TypeOf(pc.ListA{}), reflect.TypeOf(pc.ListB{}),
+	reflect.TypeOf(pc.SelfP(nil)), reflect.TypeOf(pc.ArrS{}), reflect.TypeOf(pc.MapL{}),
+}
+var recSelfContStructs = []reflect.Type{
+	reflect.TypeOf(pc.HasTree{}), reflect.TypeOf(pc.HasSelfL{}), reflect.TypeOf(pc.HasAB{}), reflect.TypeOf(pc.HasSelfP{}),
+	reflect.TypeOf(pc.HasArrS{}), reflect.TypeOf(pc.HasMapL{}),
+}
+
+// selfContT: a target type that meets a self-containing container type: such a type itself (directly
+// the Recompose target), a named or generated struct with a field of one — bare, as the element of a
+// slice or array, as the value of a map, behind a pointer —, or a container of such a struct.
+func selfContT(r *lib.Rng) reflect.Type {
+	wrap := func(t reflect.Type) reflect.Type {
+		switch r.Intn(6) {
+		case 0:
+			return reflect.SliceOf(t)
+		case 1:
+			return reflect.MapOf(stringType, t)
+		case 2:
+			return reflect.PtrTo(t)
+		case 3:
+			return reflect.ArrayOf(1+r.Intn(2), reflect.SliceOf(t))
+		}
+		return t
+	}
+	switch r.Intn(8) {
+	case 0:
+		return lib.Pick(r, recSelfContBare)
+	case 1:
+		return wrap(lib.Pick(r, recSelfContBare))
+	case 2, 3:
+		return lib.Pick(r, recSelfContStructs)
+	case 4:
+		return wrap(lib.Pick(r, recSelfContStructs))
+	}
+	// a struct literal type with such fields
+	names := []string{"Kids", "Items", "ByName", "Ref", "Grid"}
+	var fs []reflect.StructField
+	fs = append(fs, reflect.StructField{Name: "Label", Type: stringType, Tag: `json:"label,omitempty"`})
+	for i, n := 0, 1+r.Intn(3); i < n; i++ {
+		t := lib.Pick(r, recSelfContBare)
+		if r.Intn(3) == 0 {
+			t = lib.Pick(r, recSelfContStructs)
+		}
+		fs = append(fs, reflect.StructField{Name: names[i], Type: wrap(t)})
+	}
+	return reflect.StructOf(fs)
+}
+
 // wildT: a random target type, inside or outside of what the recomposer supports.
 func wildT(r *lib.Rng, depth int) reflect.Type {
 	n := r.Intn(100)
@@ -689,6 +743,11 @@ func genRecCase(seed uint64, w, idx int) *recCase {
 	if r.Intn(6) != 0 && c.rt.Kind() != reflect.Struct && c.rt.Kind() != reflect.Ptr && r.Bool() {
 		// most targets are structs or containers of them
 		c.rt = wildStruct(r, 2)
+	}
+	if idx%50 == 11 {
+		// the stream of self-containing container types (a fixed share of the cases, so that every run
+		// of either tier holds them: 60 per worker in the quick tier)
+		c.rt = selfContT(r)
 	}
 	// How the target is handed over and what a user composer answers are the PROGRAM's, not input:
 	// only the documented forms are generated (a pointer; a slice, array or made map by value), and
@@ -1410,6 +1469,9 @@ func (ch *recChild) runCase(c *recCase) {
 	ch.counts["target."+recTargetModes[c.tmode]]++
 	ch.counts["recomposer."+recRecomposers[c.rmode]]++
 	ch.counts["kind."+c.rt.Kind().String()]++
+	if c.idx%50 == 11 {
+		ch.counts["stream.self_containing_container_types"]++
+	}
 	if c.mangle != "" {
 		ch.counts["text."+c.mangle]++
 	}
